@@ -82,7 +82,11 @@ func run(r *ev.Run) {
 	wrng := r.Rand("worlds")
 	for wi := 0; wi < nWorlds; wi++ {
 		label := fmt.Sprintf("w%d", wi)
-		w := genSearchWorld(wrng, label, 10+wrng.Intn(r.Pick(20, 50)), false, false)
+		nPN := 10 + wrng.Intn(r.Pick(20, 50))
+		if wi == 0 {
+			nPN = 48 // one world with well over 200 blobs: the default limit (200) cuts `anything`
+		}
+		w := genSearchWorld(wrng, label, nPN, false, false)
 		wid := fmt.Sprintf("world%d;", wi)
 		if !r.Only(wid) {
 			continue
@@ -163,7 +167,7 @@ func run(r *ev.Run) {
 	}
 	r.Require("world_features", "repeated-value-then-del/tag", "repeated-value-then-del/camliMember", "multi-member-set", "shared-wholeref", "multi-field/constraint", "multi-field/permanode", "multi-field/file", "multi-field/dir")
 	r.Require("staged", "stage-without-claims", "late-file-changes-created-time", "content-claim-before-file", "file-indexing-postponed-on-chunk")
-	r.Require("limits", "unlimited", "cuts", "default", "equals-matches", "matches-minus-1", "beyond-matches")
+	r.Require("limits", "unlimited", "cuts", "default", "default-200-cuts", "equals-matches", "matches-minus-1", "beyond-matches")
 	r.Require("planner_paths", "corpus_permanode_created", "corpus_permanode_lastmod", "corpus_permanode_types", "one_blob", "corpus_file_meta", "corpus_blob_meta", "index_blob_meta")
 	r.Require("modes", "corpus-incremental", "corpus-scanned", "classic", "corpus-staged")
 	r.Require("outcomes", "exact-set", "ordered", "first-n", "refusal", "refusal-timeless-match", "map-sort", "empty-match", "nonempty-match")
